@@ -71,8 +71,9 @@ class Node:
 
 
 class Gen:
-    def __init__(self, rng, families=None, max_rows=8, null_rate=0.2, flat=False):
+    def __init__(self, rng, families=None, max_rows=8, null_rate=0.2, flat=False, allow=None):
         self.r = rng
+        self.allow = set(allow) if allow else None
         self.flat = flat          # three-address form: one dataset-level operator per statement
         self.stmts = []
         self.ntemp = 0
@@ -247,6 +248,10 @@ class Gen:
             if len(node.ids) > 1:
                 choices += ['sub']
         choices += ['setop', 'setop']
+        if self.allow is not None and not kinds:
+            choices = [c for c in choices if c in self.allow]
+            if not choices:
+                return None
         if kinds:
             choices = [c for c in choices if c in kinds] or choices
         k = r.choice(choices)
@@ -422,7 +427,18 @@ class Gen:
             other = self.mat(other)
             op = r.choice(['union', 'intersect', 'setdiff', 'symdiff'])
             a, b = (node, other) if r.random() < 0.5 else (other, node)
-            return Node('%s(%s, %s)' % (op, a.vtl, b.vtl), '(%s %s %s)' % (op, a.sx, b.sx), a.ids, a.meas, a.ops + b.ops + (op,))
+            operands = [a, b]
+            if op in ('union', 'intersect') and r.random() < 0.35:      # n-ary forms the grammar allows
+                for _ in range(r.choice([1, 2])):
+                    extra = self.leaf(env, like=node)
+                    if extra is not None:
+                        operands.append(extra)
+            sxx = operands[0].sx
+            for o in operands[1:]:
+                sxx = '(%s %s %s)' % (op, sxx, o.sx)
+            allops = tuple(x for o in operands for x in o.ops)
+            return Node('%s(%s)' % (op, ', '.join(o.vtl for o in operands)), sxx, a.ids, a.meas,
+                        allops + ((op if len(operands) == 2 else '%s%d' % (op, len(operands))),))
         return None
 
     def dexpr(self, env, depth, kinds=None):
